@@ -657,6 +657,9 @@ func (m *mappedFile) writeEntryAt(off uint32, name string) (next *atomic.Uint32,
 	if off < m.hdrLen+hashOff || int64(off)+16+int64(len(name)) > int64(len(m.mapping.Data)) {
 		return nil, nil, false
 	}
+	// The record's range is reserved for us and not linked yet. Do not
+	// assume that it holds zeros: start the count at zero explicitly.
+	atomic.StoreUint64((*uint64)(unsafe.Pointer(&m.mapping.Data[off])), 0)
 	copy(m.mapping.Data[off+16:], name)
 	atomic.StoreUint32((*uint32)(unsafe.Pointer(&m.mapping.Data[off+8])), uint32(len(name))|0xff000000)
 	next = (*atomic.Uint32)(unsafe.Pointer(&m.mapping.Data[off+12]))
